@@ -653,16 +653,20 @@ func pushConn(up *rtpUpConnection, g *group.Group, cs []group.Client) {
 	up.pushed = false
 	up.mu.Unlock()
 
-	go func(g *group.Group, cs []group.Client) {
+	go func(g *group.Group) {
 		time.Sleep(200 * time.Millisecond)
 		up.mu.Lock()
 		pushed := up.pushed
 		up.pushed = true
 		up.mu.Unlock()
 		if !pushed {
-			pushConnNow(up, g, cs)
+			// Several calls are coalesced into one push, so
+			// use the current list of clients rather than the
+			// one of the call that happens to fire first:
+			// a client might have joined in the meantime.
+			pushConnNow(up, g, g.GetClients(up.client))
 		}
-	}(g, cs)
+	}(g)
 }
 
 func newUpConn(c group.Client, id string, label string, offer string) (*rtpUpConnection, error) {
